@@ -1,7 +1,7 @@
 import inspect
 from enum import Enum
 from functools import wraps
-from typing import Any, Callable, List, Dict
+from typing import Any, Callable, List, Dict, Tuple
 
 from pedantic.decorators.fn_deco_validate.exceptions import ValidateException, TooManyArguments
 from pedantic.decorators.fn_deco_validate.parameters import Parameter, ExternalParameter
@@ -55,7 +55,8 @@ def validate(
                 if 'self' in result:
                     return func(result.pop('self'), **result)
 
-                return func(*result.values())
+                positional, keywords = _as_args(result)
+                return func(*positional, **keywords)
 
             if return_as == ReturnAs.KWARGS_WITHOUT_NONE:
                 result = {k: v for k, v in result.items() if v is not None}
@@ -73,7 +74,8 @@ def validate(
                 if 'self' in result:
                     return await func(result.pop('self'), **result)
 
-                return await func(*result.values())
+                positional, keywords = _as_args(result)
+                return await func(*positional, **keywords)
 
             if return_as == ReturnAs.KWARGS_WITHOUT_NONE:
                 result = {k: v for k, v in result.items() if v is not None}
@@ -82,6 +84,26 @@ def validate(
                 return await func(result.pop('self'), **result)
 
             return await func(**result)
+
+        def _as_args(result: Dict[str, Any]) -> Tuple[List[Any], Dict[str, Any]]:
+            """ Values are passed by position in the order of the signature, not in the order of their arrival. """
+
+            params = inspect.signature(func).parameters
+            has_var_keyword = any(p.kind == p.VAR_KEYWORD for p in params.values())
+
+            if any(p.kind == p.VAR_POSITIONAL for p in params.values()) \
+                    or (not has_var_keyword and any(k not in params for k in result)):
+                return list(result.values()), {}
+
+            positional = []
+
+            for name, p in params.items():
+                if name not in result or p.kind not in (p.POSITIONAL_ONLY, p.POSITIONAL_OR_KEYWORD):
+                    break
+
+                positional.append(result.pop(name))
+
+            return positional, result
 
         def _wrapper_content(*args, **kwargs) -> Dict[str, Any]:
             result = {}
